@@ -5,6 +5,7 @@ from . import layout, common, hexcodec, cmpmodel, c04, panics
 
 ID = "C05"
 CONFIGS = {"quick": ["K0", "K1"], "thorough": ["K0", "K1", "K3", "K4", "K5", "K9", "K13"]}
+FIXTURES = {"panic"}
 META = {
     "explanation": (
         "Static analysis (constant evaluator + MIR paths).  Accepted alphabet: the decode tables / digit decoder accept "
